@@ -1,7 +1,7 @@
 class References:
 
   def _process_not_unique(self, previous):
-    if self.is_complement(previous):
+    if previous.record_type == "L" and self.is_complement(previous):
       pass
     else:
       super()._process_not_unique(previous)
